@@ -1127,6 +1127,12 @@ class UnitDatabase(Singleton):
             # Special case handling
             return self.Convert(quantity_type, from_unit, to_unit, value)
 
+        if self.GetInfo(quantity_type, from_unit, fix_unknown=True) is self.GetInfo(
+            quantity_type, to_unit, fix_unknown=True
+        ):
+            # same unit (under two spellings, a legacy one and the current one): no conversion needed
+            return value
+
         negative = False
         if value < 0.0:
             negative = True
